@@ -156,6 +156,10 @@ def graph_case(draw):
             o[e] = new
             pert.append(kind)
     case['_pert'] = pert
+    # the whole structure scaled by the program (the tolerance must follow the scaled segments; the perturbations
+    # above keep their size relative to the shortest segment)
+    if draw(st.integers(0, 3)) == 0:
+        case['scales'].append({'f': draw(st.sampled_from([0.01, 0.1, 0.5, 2.0, 10.0, 100.0])), 'tag': None})
     return case
 
 
@@ -210,6 +214,8 @@ def check(case):
         sl = np.linalg.norm(np.diff(o['segs'], axis=0), axis=1)
         if sl[0] > sl.min() * 1.5:
             labels.append('taper-or-curve-shortest-not-first')
+    if case.get('scales'):
+        labels.append('scaled')
     for k in set(case.get('_pert') or []):
         labels.append('perturbed-' + k)
         nt = True
